@@ -570,15 +570,36 @@ func (repo *Repository) CheckHeader(ctx context.Context,
 
 	branch, height := repo.branches.Find(hash)
 	if branch != nil {
-		return height, branch == repo.longest, nil
+		return height, repo.isInLongest(ctx, hash, height), nil
 	}
 
 	// Lookup in larger map
 	if height, exists := repo.heights[hash]; exists {
-		return height, true, nil
+		return height, repo.isInLongest(ctx, hash, height), nil
 	}
 
 	return -1, false, ErrUnknownHeader
+}
+
+// isInLongest returns true if the header with the specified hash is the header at the specified
+// height in the longest POW chain. The longest branch also contains the headers of its parent
+// branches below the heights at which it, and its parents, forked from them.
+func (repo *Repository) isInLongest(ctx context.Context, hash bitcoin.Hash32, height int) bool {
+	if height > repo.longest.Height() {
+		return false
+	}
+
+	if data := repo.longest.AtHeight(height); data != nil {
+		return data.Hash.Equal(&hash)
+	}
+
+	// The height has been pruned from memory so check the main header set in storage.
+	header, err := repo.header(ctx, height)
+	if err != nil {
+		return false
+	}
+
+	return header.BlockHash().Equal(&hash)
 }
 
 // GetHeader returns the header with the specified hash with its block height and whether it is
@@ -595,7 +616,7 @@ func (repo *Repository) GetHeader(ctx context.Context,
 			return nil, -1, false, ErrHeaderNotAvailable
 		}
 
-		return data.Header, height, branch == repo.longest, nil
+		return data.Header, height, repo.isInLongest(ctx, hash, height), nil
 	}
 
 	// Lookup in larger map
@@ -603,6 +624,12 @@ func (repo *Repository) GetHeader(ctx context.Context,
 		header, err := repo.header(ctx, height)
 		if err != nil {
 			return nil, -1, false, err
+		}
+
+		if !header.BlockHash().Equal(&hash) {
+			// The header is from a branch that is no longer in memory and only the headers of
+			// the longest chain are available below the pruned height.
+			return nil, -1, false, ErrHeaderNotAvailable
 		}
 
 		return header, height, true, nil
